@@ -8,6 +8,7 @@ import Frp.Model.Deadline
 import Frp.Model.QuicStream
 import Frp.Model.CodecPool1
 import Frp.Gen.ConnFacts
+import Frp.Lemmas.Reload
 import Frp.Props.C06
 /-
   C01 — TCP-class tunnels are byte-transparent, never cross-wired, propagate close, respect the
@@ -49,6 +50,14 @@ import Frp.Props.C06
        pool_recycle_once_code (tie: regenerated from every caller of WithCompressionFromPool)
    (12) closing one vhost proxy never re-routes another's connections (over C06's Router model)
        .............................................. survivor_keeps_route, survivor_example
+   (13) frpc is re-configured while it runs (Manager.UpdateAll): after ANY history of reloads a new connection of proxy p
+       is bridged to the backend (and gets the header version) of the LAST loaded configuration of p
+       .............................................. reload_table, reload_inv, reload_bridges_last, reload_swap,
+       reload_inplace_witness (sensitivity), reload_code_recreates (tie: regenerated from client/proxy)
+   (14) the StartWorkConn message of a user connection is a function of THAT connection's addresses, whatever other
+       user connections of the proxy are in flight, in every interleaving
+       .............................................. startmsg_own, startmsg_header_own, startmsg_shared_witness (sensitivity),
+       startmsg_code_locals (tie: regenerated from server/proxy/proxy.go), reloadHoldsOn / ppcHoldsOn (driver predicates)
 -/
 namespace Frp
 namespace C01
@@ -1368,5 +1377,116 @@ theorem survivor_example :
   decide +kernel
 
 end survivor
+/-! ## (13) a running frpc is re-configured -/
+section reload
+open Reload
+
+/-- UpdateAll(cs) on any table whose wrappers read what they report: the table IS the configured map (lo.KeyBy: the last
+    entry of a name), every proxy made by NewWrapper from what is configured now -/
+theorem reload_table (T : Table) (cs : List Cfg) (h : Inv T) (n : Nat) :
+    lookup (updateAll T cs) n = (keyBy cs n).map Wrapper.new := updateAll_lookup T cs h n
+
+/-- … and that table again has the property: it holds along every history -/
+theorem reload_inv (hs : List (List Cfg)) (T : Table) (h : Inv T) : Inv (runHist T hs) := runHist_inv hs T h
+
+/-- after ANY history of reloads (any earlier configurations, names configured twice, proxies that came and went), a
+    new work connection of proxy n goes to the backend — dialled or through the plugin —, with the header version, of the
+    LAST loaded configuration of n; to nothing if that does not configure n -/
+theorem reload_bridges_last (hs : List (List Cfg)) (cs : List Cfg) (n : Nat) :
+    dialled (runHist [] (hs ++ [cs])) n = (keyBy cs n).map fun c => (c.backend, c.via, c.ppv) := by
+  have hinv : Inv (runHist [] hs) := runHist_inv hs [] (fun _ hp => by cases hp)
+  have : runHist [] (hs ++ [cs]) = updateAll (runHist [] hs) cs := by simp [runHist, List.foldl_append]
+  rw [this]
+  simp only [dialled, reload_table _ cs hinv n, Option.map_map]
+  cases keyBy cs n <;> rfl
+
+/-- two proxies swap their backends (nothing frps sees changes): each is bridged to its NEW backend -/
+theorem reload_swap (hs : List (List Cfg)) (a b : Cfg) (hn : a.name ≠ b.name) :
+    let cs := [{ a with backend := b.backend }, { b with backend := a.backend }]
+    dialled (runHist [] (hs ++ [[a, b], cs])) a.name = some (b.backend, a.via, a.ppv) ∧
+    dialled (runHist [] (hs ++ [[a, b], cs])) b.name = some (a.backend, b.via, b.ppv) := by
+  intro cs
+  have e : hs ++ [[a, b], cs] = (hs ++ [[a, b]]) ++ [cs] := by simp
+  rw [e, reload_bridges_last, reload_bridges_last]
+  have hn' : ¬ b.name = a.name := fun h => hn h.symm
+  simp [cs, keyBy, hn']
+
+example : dialled (runHist [] [[⟨0, 7, 0, 2, 1⟩, ⟨1, 8, 0, 0, 1⟩], [⟨0, 8, 0, 2, 1⟩, ⟨1, 7, 0, 0, 1⟩, ⟨0, 9, 1, 1, 1⟩]]) 0 = some (9, 1, 1) := by
+  decide
+
+/-- SENSITIVITY: were a change that frps does not see taken over "in place" (`pw.Cfg = cfg`, the proxy keeps running),
+    the proxy would go on dialling the OLD backend -/
+theorem reload_inplace_witness :
+    dialled (updateAllWith keepInPlace (updateAllWith keepInPlace [] [⟨0, 7, 0, 0, 1⟩]) [⟨0, 8, 0, 0, 1⟩]) 0 = some (7, 0, 0) ∧
+    dialled (updateAll (updateAll [] [⟨0, 7, 0, 0, 1⟩]) [⟨0, 8, 0, 0, 1⟩]) 0 = some (8, 0, 0) := by
+  decide
+
+/-- the REAL UpdateAll (regenerated from client/proxy on every run): a running proxy is deleted-and-stopped exactly when it
+    is no longer configured or its configuration is not DeepEqual to the new one, loop 1 does nothing else with a running
+    wrapper, loop 2 makes a NewWrapper for what is missing — and no code of the package writes a wrapper's / a running
+    proxy's configuration after NewWrapper -/
+theorem reload_code_recreates :
+    Gen.ConnFacts.updateAllDelConds = [["!ok || !reflect.DeepEqual(pxy.Cfg, cfg)"]] ∧
+    Gen.ConnFacts.updateAllTouches = ["Stop"] ∧
+    (Gen.ConnFacts.updateAllDelBody.contains "delete(pm.proxies, name)" && Gen.ConnFacts.updateAllDelBody.contains "pxy.Stop()") = true ∧
+    (Gen.ConnFacts.updateAllAddCalls.contains "NewWrapper" && Gen.ConnFacts.updateAllAddCalls.contains "pxy.Start") = true ∧
+    Gen.ConnFacts.clientCfgWriters = ["client/proxy/proxy_wrapper.go:NewWrapper:pw.pxy"] := by
+  decide +kernel
+
+/-- the predicate on what the users of one step observed: `obs n` = (backend, via, header version, the header named this
+    very user / there was none) of the answer to a NEW connection to proxy n, `none` = no answer -/
+def reloadHoldsOn (cs : List Cfg) (names : List Nat) (obs : Nat → Option (Nat × Nat × Nat × Bool)) : Bool :=
+  names.all fun n =>
+    match keyBy cs n with
+    | none => true
+    | some c => obs n == some (c.backend, c.via, c.ppv, true)
+
+end reload
+
+/-! ## (14) the StartWorkConn message of one user connection among others in flight -/
+section workmsg
+open WorkMsg
+
+/-- for EVERY interleaving of the fill / send moments of any number of user connections of one proxy: a message written
+    for connection i was built from connection i's own addresses -/
+theorem startmsg_own (name : Str) (cs : List Conn) (evs : List Ev) :
+    ∀ p ∈ (run false name cs evs).sent, ∃ c, cs[p.1]? = some c ∧ p.2 = startMsg name c.src c.dst :=
+  (run_ok name cs evs St.init (by constructor <;> (intro p hp; simp [St.init] at hp))).2
+
+/-- … so the proxy-protocol header frpc builds from it carries that very user's source address -/
+theorem startmsg_header_own (ver name : Str) (cs : List Conn) (evs : List Ev) (i : Nat) (m : StartWorkConn) (c : Conn) (a : Addr)
+    (hm : (i, m) ∈ (run false name cs evs).sent) (hc : cs[i]? = some c) (ha : c.src = some a)
+    (hv : ver ≠ []) (hh : a.host ≠ []) (hp : a.port ≠ 0) : (ppHeader ver m).map (·.src) = some a := by
+  rcases startmsg_own name cs evs (i, m) hm with ⟨c', hc', he⟩
+  simp only at hc' he
+  rw [hc] at hc'
+  cases hc'
+  rw [he, ha]
+  exact pp_header_src ver name a c.dst hv hh hp
+
+/-- SENSITIVITY: were the message a field of the proxy that every call fills in, a second user arriving between fill and
+    send would put ITS address into the first user's message -/
+theorem startmsg_shared_witness :
+    let cs : List Conn := [⟨some ⟨[49], 1001⟩, none⟩, ⟨some ⟨[49], 1002⟩, none⟩]
+    ((run true [112] cs [.fill 0, .fill 1, .send 0]).sent.map fun p => (p.1, p.2.srcPort)) = [(0, 1002)] ∧
+    ((run false [112] cs [.fill 0, .fill 1, .send 0]).sent.map fun p => (p.1, p.2.srcPort)) = [(0, 1001)] := by
+  decide
+
+/-- the REAL GetWorkConnFromPool (regenerated from server/proxy/proxy.go on every run): the message is a literal built at
+    the msg.WriteMsg call, its four address fields from parameters / locals of the call only, and neither the function nor
+    a BaseProxy method it calls writes a field of the proxy or takes the address of one -/
+theorem startmsg_code_locals :
+    Gen.ConnFacts.startMsgShape = "literal" ∧
+    (["SrcAddr", "SrcPort", "DstAddr", "DstPort"].all fun k => Gen.ConnFacts.startMsgFields.any fun f => f.1 == k && f.2.2) = true ∧
+    Gen.ConnFacts.startMsgRecvWrites = [] := by
+  decide +kernel
+
+/-- the predicate on what k simultaneous users of one proxy observed: `obs i` = (backend, via, header version, the index of the
+    user whose address the header's source is, destination = the endpoint dialled, own line answered) -/
+def ppcHoldsOn (backend via ppv : Nat) (obs : List (Option (Nat × Nat × Nat × Option Nat × Bool × Bool))) : Bool :=
+  (List.range obs.length).all fun i => obs[i]? == some (some (backend, via, ppv, some i, true, true))
+
+end workmsg
+
 end C01
 end Frp
